@@ -82,7 +82,8 @@ def setup(ctx):
     from periodictable import fasta, formulas
     from ..ref.fasta_ref import FastaRef
     from ..statemon import Reach
-    R = _state['ref'] = FastaRef()
+    # PVMON_C18_REF_ROUTE=data|source forces a route (used to test the fallback); default: source, else data
+    R = _state['ref'] = FastaRef(route=os.environ.get('PVMON_C18_REF_ROUTE') or None)
     ctx.info['reference_route'] = R.route
     ctx.note('reference model route: %s - %s' % (R.route, R.route_note))
     ctx.count('reference.route.' + R.route)
